@@ -11,7 +11,7 @@ from harness import h_prof
 def main():
     ck = Check('C17', repo.functions_encoded(['profiler/profiler.py', 'utils/validation.py']))
     quick = ck.tier == 'quick'
-    B = 16 if quick else 20
+    B = 20 if quick else 21
     ck.assumptions += [
         'the counts themselves (Series.unique, isnull) are pandas: they are the symbolic inputs u, m, n '
         'constrained to be realisable (0 <= m <= n, distinct count compatible with m)',
